@@ -176,4 +176,31 @@ theorem exec_refPrelude (call : CallFn N) (ρ : ExtOracle N) (k : Nat) (env : En
   rw [e2']
   exact h1
 
+/-- without modules the reference prelude runs at every level (no indexed assignment) -/
+theorem exec_refPrelude_nil (call : CallFn N) (ρ : ExtOracle N) (k : Nat) (env : Env N) (fb : FnBody) (σ : State N) :
+    ∃ (env1 : Env N) (σ' : State N),
+      execSs call ρ k env [refLa, .localFn .loc "__ref_require" fb] σ = .ok (.next env1) σ' ∧
+      StExt σ σ' ∧ env1.varargs = env.varargs ∧
+      env1.locals = ("__ref_require", σ.cells.length + 2) :: ("__ref_modules", σ.cells.length + 1) ::
+        ("__ref_loaded", σ.cells.length) :: env.locals := by
+  have e1 := exec_refLa call ρ k env σ
+  have hA : StExt σ (afterRefLa σ) := by
+    unfold afterRefLa
+    exact ((StExt.allocTable σ _).trans (StExt.allocTable _ _)).trans ((StExt.allocCell _ _).trans (StExt.allocCell _ _))
+  have hlenC : (afterRefLa σ).cells.length = σ.cells.length + 2 := by simp [afterRefLa, State.allocTable, State.allocCell]
+  let env2 : Env N := ⟨("__ref_modules", σ.cells.length + 1) :: ("__ref_loaded", σ.cells.length) :: env.locals, env.varargs⟩
+  let env3 : Env N := ⟨("__ref_require", σ.cells.length + 2) :: env2.locals, env.varargs⟩
+  let σ3 : State N := (((afterRefLa σ).allocCell .nil).2.allocClosure ⟨fb, env3.locals, []⟩).2.setCell (σ.cells.length + 2)
+    (.fn (afterRefLa σ).closures.length)
+  have e2 : execS call ρ k env2 (.localFn .loc "__ref_require" fb) (afterRefLa σ) = .ok (.next env3) σ3 := by
+    simp [execS, State.allocClosure, State.allocCell, hlenC, env3, env2, σ3]
+  have hB : StExt σ σ3 := by
+    have h1 := hA.trans ((StExt.allocCell (afterRefLa σ) .nil).trans (StExt.allocClosure _ ⟨fb, env3.locals, []⟩))
+    exact StExt.setNewCell h1 (by simp) _
+  refine ⟨env3, σ3, ?_, hB, rfl, rfl⟩
+  simp only [execSs, e1, Res.bind]
+  have e2' : execS call ρ k ⟨("__ref_modules", σ.cells.length + 1) :: ("__ref_loaded", σ.cells.length) :: env.locals,
+      env.varargs⟩ (.localFn .loc "__ref_require" fb) (afterRefLa σ) = .ok (.next env3) σ3 := e2
+  rw [e2']
+
 end DarkluaModel.C05
